@@ -415,7 +415,7 @@ func judgeCheck(t *Tree, run *runOut, mode string, rc *rec) (anyErr bool, ok boo
 				continue
 			}
 			ndem++
-			if !listed[f.Abs][fr.Line] {
+			if pf, pl := fr.at(f.Abs); !listed[canon("/", pf)][pl] {
 				missing = append(missing, fr)
 			}
 		}
